@@ -114,6 +114,17 @@ def exec_SP(t):
             y = fxpmath.from_bin(r, signed=s, n_word=n, n_frac=f, raw=raw)
         else:
             y = Fxp(None if shape == 0 else np.zeros_like(np.array(codes, dtype=object), dtype=int), s, n, f)
+            if (len(codes) + n + f + codes[0]) % 3 == 0 and n <= 60:
+                # a destination with a past (content-determined): it has parsed the very same string(s) before, while it had another
+                # fraction length; what a string means is decided by the format the object has when the string is stored
+                f0 = f - 1 if f > 0 else f + 1
+                y = Fxp(None if shape == 0 else np.zeros_like(np.array(codes, dtype=object), dtype=int), s, n, f0)
+                for g in (lambda: y(r), lambda: y.set_val(r, raw=raw), lambda: y.from_bin(r, raw=raw) if kind != 'hex' else None):
+                    try:
+                        g()
+                    except Exception:
+                        pass
+                y.resize(n_frac=f)
             if route == 'call':
                 if raw:
                     return ['SKIPROUTE']
